@@ -621,25 +621,25 @@ Qed.
 
 (* ------------------------------------------------------------------ FFSynchronizer under the output domain's reset *)
 Lemma ffr_erase_gen sh init async rl evs : forall f r,
-  (async = false /\ rl = true) \/ (r = false /\ rst_never evs = true) ->
+  rl = true \/ (r = false /\ rst_never evs = true) ->
   fr_ff (fold_left (ffr_step sh init async rl) evs (FFR f r)) = fold_left (ff_step sh) (erase_rst evs) f.
 Proof.
   induction evs as [|e t IH]; intros f r H; [reflexivity|].
   destruct e as [e'|b].
   - assert (Hstep : ffr_step sh init async rl (FFR f r) (Rev e') = FFR (ff_step sh f e') r).
     { destruct e'; try reflexivity; cbn [ffr_step fr_ff fr_rst ffr_process ff_step];
-        (destruct H as [[_ ->]|[-> _]]; [destruct r|]; reflexivity). }
+        (destruct H as [->|[-> _]]; [destruct r|]; reflexivity). }
     cbn [fold_left]. rewrite Hstep. cbn [erase_rst flat_map app fold_left]. apply IH.
     destruct H as [H|[Hr Hn]]; [left; exact H|right; split; [exact Hr|exact Hn]].
   - cbn [fold_left ffr_step fr_ff fr_rst erase_rst flat_map app].
-    destruct H as [[-> ->]|[-> Hn]].
-    + cbn [andb]. apply IH. left; auto.
-    + destruct b; [discriminate|]. rewrite !andb_false_r. apply IH. right; auto.
+    destruct H as [->|[-> Hn]].
+    + rewrite !andb_false_r. apply IH. left; auto.
+    + destruct b; [discriminate|]. rewrite andb_false_r. cbn [andb]. apply IH. right; auto.
 Qed.
 
-(* default flops (reset_less) in a sync-reset domain: the reset has no effect whatsoever *)
-Lemma ffr_reset_less_ignores_reset sh stages init i0 evs :
-  fr_ff (ffr_run sh stages init false true i0 evs) = ff_run sh stages init i0 (erase_rst evs).
+(* default flops (reset_less) in ANY output domain, sync or async reset: the reset has no effect *)
+Lemma ffr_reset_less_ignores_reset sh stages init async i0 evs :
+  fr_ff (ffr_run sh stages init async true i0 evs) = ff_run sh stages init i0 (erase_rst evs).
 Proof. unfold ffr_run, ffr_start, ff_run. apply ffr_erase_gen. left; auto. Qed.
 
 (* reset never asserted: any domain kind, resettable or not, behaves as the reset-free model *)
@@ -657,8 +657,8 @@ Proof.
   destruct s as [[i fl] r]. destruct e as [e'|b].
   - destruct e'; cbn [ffr_step fr_ff fr_rst ff_step ffr_process ff_flops ff_in]; try reflexivity;
       (destruct (r && negb rl); [apply ff_chain_length|apply shift_in_length]).
-  - cbn [ffr_step fr_ff fr_rst]. destruct (async && negb r && b); [|reflexivity].
-    cbn [ffr_process ff_flops ff_in]. destruct (b && negb rl); [apply ff_chain_length|apply shift_in_length].
+  - cbn [ffr_step fr_ff fr_rst]. destruct (async && negb r && b && negb rl); [|reflexivity].
+    cbn [ff_flops ff_in]. apply ff_chain_length.
 Qed.
 
 Lemma ff_latency_from sh n init cur tail : (1 <= n)%nat ->
@@ -699,10 +699,15 @@ Proof.
   apply ff_latency_from. assumption.
 Qed.
 
-(* F7 seen from C17: reset_less flops in an async-reset domain move on every rise of rst, so the
-   input reaches the output without any output-clock edge *)
-Lemma ffr_async_reset_rise_refuted :
-  exists evs, count_oedges (erase_rst evs) = O /\
-              ff_out (fr_ff (ffr_run (Sh 4 false) 2 (Some 3) true true 9 evs)) = 9%Z /\
-              ff_out (ff_run (Sh 4 false) 2 (Some 3) 9 (erase_rst evs)) = 3%Z.
-Proof. exists [Rrst true; Rrst false; Rrst true]. vm_compute. auto. Qed.
+(* resettable flops in an async-reset domain: a rise of rst loads init at once, no edge needed *)
+Lemma ffr_async_reset_immediate sh stages init i0 evs : (1 <= stages)%nat ->
+  fr_rst (ffr_run sh stages init true false i0 evs) = false ->
+  ff_out (fr_ff (ffr_run sh stages init true false i0 (evs ++ [Rrst true]))) = norm sh (ff_ctor_init init).
+Proof.
+  intros Hs Hr. unfold ffr_run. rewrite fold_left_app. fold (ffr_run sh stages init true false i0 evs).
+  assert (Hl : length (ff_flops (fr_ff (ffr_run sh stages init true false i0 evs))) = stages).
+  { unfold ffr_run. rewrite ffr_length. cbn. apply ff_chain_length. }
+  destruct (ffr_run sh stages init true false i0 evs) as [[cur fl] r]. cbn [fr_rst fr_ff ff_flops] in *. subst r.
+  cbn [fold_left ffr_step fr_ff fr_rst ff_flops ff_in andb negb]. rewrite Hl.
+  unfold ff_out, ff_chain. cbn [ff_flops]. rewrite last_nth, repeat_length. apply nth_repeat_lt. lia.
+Qed.
